@@ -4,6 +4,7 @@ package c03
 
 import (
 	"fmt"
+	"math"
 
 	"pgregory.net/rapid"
 	"pipelined.dev/signal"
@@ -120,6 +121,9 @@ func run[T signal.SignalTypes](c *Case) (res kit.Result) {
 			for p := range m { // make the source's contents different from the destination root's
 				stamp++
 				v := T(70 + stamp%50)
+				if stamp%4 == 2 {
+					v = kit.As[T](kit.FV(math.Copysign(0, -1))) // -0.0 for floating types, 0 for integer ones
+				}
 				sr.SetSample(p, v)
 				m[p] = v
 			}
@@ -235,8 +239,29 @@ func run[T signal.SignalTypes](c *Case) (res kit.Result) {
 					return
 				}
 			}
+			if s.Kind == "sep" {
+				if d := srcSt.diff("the source's storage"); d != "" {
+					res.Failf("%s: writing through the moved destination changed %s (destination and source share storage)", what, d)
+					return
+				}
+			}
 			for i := range ns.model {
 				ext.SetSample(i, ns.model[i])
+			}
+			// and the other way round: writing the source must not show through the destination
+			if s.Kind == "sep" {
+				for i := range srcSt.model {
+					srcSt.view.SetSample(i, T(119))
+				}
+				for i := range ns.model {
+					if got := ext.Sample(i); !kit.Same(got, ns.model[i]) {
+						res.Failf("%s: rewriting the source afterwards changed destination position %d to %s", what, i, kit.Str(got))
+						return
+					}
+				}
+				for i := range srcSt.model {
+					srcSt.view.SetSample(i, srcSt.model[i])
+				}
 			}
 			cur, off, moved = ns, 0, true
 			// An unrelated buffer of the same element type now grows as well, needing about
